@@ -84,10 +84,30 @@ pub struct RecFS {
     pub log: CallLog,
 }
 
+/// layer index for a recorder that wraps a filesystem shared by all layers (usize::MAX):
+/// derived from the layer directory the path lies in
+pub fn layer_of(layer: usize, path: &str) -> usize {
+    if layer != usize::MAX {
+        return layer;
+    }
+    for (i, d) in crate::config::LAYER_DIRS.iter().enumerate() {
+        if path == format!("/{}", d) || path.starts_with(&format!("/{}/", d)) {
+            return i;
+        }
+    }
+    0
+}
+
 impl RecFS {
     fn rec(&self, method: &'static str, path: &str, path2: Option<&str>, mutating: bool) {
+        let lay = match path2 {
+            // copy_file only mutates its destination; a move mutates source and destination
+            Some(p2) if method == "copy_file" => layer_of(self.layer, p2),
+            Some(p2) => layer_of(self.layer, path).max(layer_of(self.layer, p2)),
+            None => layer_of(self.layer, path),
+        };
         self.log.lock().unwrap().push(Call {
-            layer: self.layer,
+            layer: lay,
             method,
             path: path.to_string(),
             path2: path2.map(|s| s.to_string()),
@@ -106,7 +126,7 @@ struct RecWriter {
 impl Write for RecWriter {
     fn write(&mut self, buf: &[u8]) -> std::io::Result<usize> {
         self.log.lock().unwrap().push(Call {
-            layer: self.layer,
+            layer: layer_of(self.layer, &self.path),
             method: "handle.write",
             path: self.path.clone(),
             path2: None,
